@@ -267,6 +267,7 @@ func (s *Sorter) SortedBlocks(ctx context.Context, removedCols map[int]struct{},
 		blkPK := make([]string, 0, len(pkIndices))
 		rowPK := make([]string, len(pkIndices))
 		prevRowPK := make([]string, len(pkIndices))
+		hasPrevRow := false
 		dec := objects.NewStrListDecoder(true)
 		n := len(s.chunks)
 		chunkRows := make([]objects.StrList, n)
@@ -326,7 +327,7 @@ func (s *Sorter) SortedBlocks(ctx context.Context, removedCols map[int]struct{},
 			minRow = r.RemoveFrom(minRow)
 			row := dec.Decode(minRow)
 			slice.CopyValuesFromIndices(row, rowPK, pkIndices)
-			pkOK := pkIsDifferent(rowPK, prevRowPK)
+			pkOK := pkIsDifferent(rowPK, prevRowPK, &hasPrevRow)
 			if pkOK {
 				m := len(blk)
 				blk = blk[:m+1]
@@ -389,16 +390,15 @@ func (s *Sorter) SortedBlocks(ctx context.Context, removedCols map[int]struct{},
 	return
 }
 
-func pkIsDifferent(pk, prevPK []string) bool {
-	if prevPK == nil {
-		copy(prevPK, pk)
-		return true
-	} else {
-		if slice.StringSliceEqual(prevPK, pk) {
-			return false
-		}
+// pkIsDifferent reports whether pk differs from the key of the previous row and
+// records pk as the previous key. *hasPrev is false while there is no previous
+// row: the first row always counts as different, whatever its key is.
+func pkIsDifferent(pk, prevPK []string, hasPrev *bool) bool {
+	if *hasPrev && slice.StringSliceEqual(prevPK, pk) {
+		return false
 	}
 	copy(prevPK, pk)
+	*hasPrev = true
 	return true
 }
 
@@ -417,6 +417,7 @@ func (s *Sorter) SortedRows(ctx context.Context, removedCols map[int]struct{}, e
 		chunkIdx := make([]int, n)
 		pk := make([]string, len(pkIndices))
 		prevPK := make([]string, len(pkIndices))
+		hasPrev := false
 		for {
 			minInd := 0
 			var minRow []string
@@ -454,7 +455,7 @@ func (s *Sorter) SortedRows(ctx context.Context, removedCols map[int]struct{}, e
 				break
 			}
 			slice.CopyValuesFromIndices(minRow, pk, pkIndices)
-			pkOK := pkIsDifferent(pk, prevPK)
+			pkOK := pkIsDifferent(pk, prevPK, &hasPrev)
 			if pkOK {
 				rows = append(rows, s.removeCols(minRow, removedCols))
 				if s.profiler != nil {
